@@ -41,6 +41,9 @@ var masked = map[string]bool{}
 // development aid: VERIF_C06_DEBUG=1 prints every run's history to stderr
 var debugOps = os.Getenv("VERIF_C06_DEBUG") != ""
 
+// development aid: VERIF_C06_NOTOUCH=1 switches the 'touchy' member off (to show that a mutant needs it)
+var noTouch = os.Getenv("VERIF_C06_NOTOUCH") != ""
+
 func init() {
 	logx.Disable()
 	// stat.Report (called by the redis breaker when it drops a request and by the cleaner when it
@@ -239,6 +242,16 @@ type call struct {
 	dbx        *qexec  // out == oDBErr: the query whose error the call returned
 	withExp    bool    // rTake through Cache.TakeWithExpire
 	cx         ctxPlan // the request context of the call
+
+	// what the caller does with its destination object (member 'touchy', touch_test.go); all zero: a
+	// fresh zero object for every read, left alone once the read returned
+	edit     int   // once the read returned the caller writes to the object it received (mask of edit*)
+	editWait int   // ... 0 at once, 1 after a yield, 2 after a few milliseconds
+	prefill  bool  // the destination handed to the read holds another row (every field set)
+	next     *call // the caller's next read, run by the same task
+	nextSt   *step // ... and the step that read belongs to (this one, or a read of another row)
+	chained  bool  // this call is the next read of another call
+	reuse    int   // chained: 0 a fresh object, 1 the object of the previous read as it is, 2 that object reset to the zero row
 }
 
 type stepKind int
@@ -300,6 +313,7 @@ type step struct {
 	expire  time.Duration
 	keyRev  bool
 	direct  bool // use the cache.Cache value instead of the CachedConn
+	follow  bool // a read of another row added for the next read(s) of callers of this batch (touch_test.go)
 
 	fault      faultKind
 	lossy      simredis.Kind
@@ -389,6 +403,9 @@ type world struct {
 	ctxy    bool // request contexts may end while (or before) an operation runs
 	idents  bool // error identities are drawn (wrapped not-found, sentinel / look-alike database errors)
 	monc    bool // the cache-aside API under test is monc.Model (Mongo cached model) instead of sqlc.CachedConn
+	touchy  bool // readers write to, re-use and pre-fill their destination objects (touch_test.go)
+	audit   bool // the closing audit is running: plain reads
+	objs    []*tracked
 	mm      *monc.Model
 	e, nfe  time.Duration
 	maxJump time.Duration // longest single clock advance (one wheel tick per virtual second)
@@ -508,14 +525,15 @@ func (w *world) query(ctx context.Context, st *step, c *call, kind int, v any) (
 	return ent.pk, nil
 }
 
-func (w *world) doRead(st *step, c *call) {
+// doRead: one read call with the destination v.  What the caller received is recorded (a deep
+// copy) the moment the call returns.
+func (w *world) doRead(st *step, c *call, v *row) {
 	ent := st.ent
-	var v row
 	ctx := c.cx.open(w)
 	if w.monc {
-		c.err = w.monRead(ctx, st, c, &v)
-		c.cx.close()
+		c.err = w.monRead(ctx, st, c, v)
 		w.classify(ent, c, v)
+		c.cx.close()
 		return
 	}
 	checkExpire := func(expire time.Duration) {
@@ -545,24 +563,24 @@ func (w *world) doRead(st *step, c *call) {
 		if c.kind == rTake && w.cache != nil {
 			switch {
 			case c.withExp && ctx == nil:
-				c.err = w.cache.TakeWithExpire(&v, ent.pkey, func(v any, expire time.Duration) error {
+				c.err = w.cache.TakeWithExpire(v, ent.pkey, func(v any, expire time.Duration) error {
 					checkExpire(expire)
 					_, err := w.query(nil, st, c, qPrimary, v)
 					return err
 				})
 			case c.withExp:
-				c.err = w.cache.TakeWithExpireCtx(ctx, &v, ent.pkey, func(v any, expire time.Duration) error {
+				c.err = w.cache.TakeWithExpireCtx(ctx, v, ent.pkey, func(v any, expire time.Duration) error {
 					checkExpire(expire)
 					_, err := w.query(ctx, st, c, qPrimary, v)
 					return err
 				})
 			case ctx == nil:
-				c.err = w.cache.Take(&v, ent.pkey, func(v any) error {
+				c.err = w.cache.Take(v, ent.pkey, func(v any) error {
 					_, err := w.query(nil, st, c, qPrimary, v)
 					return err
 				})
 			default:
-				c.err = w.cache.TakeCtx(ctx, &v, ent.pkey, func(v any) error {
+				c.err = w.cache.TakeCtx(ctx, v, ent.pkey, func(v any) error {
 					_, err := w.query(ctx, st, c, qPrimary, v)
 					return err
 				})
@@ -570,20 +588,20 @@ func (w *world) doRead(st *step, c *call) {
 			break
 		}
 		if ctx == nil {
-			c.err = w.cc.QueryRow(&v, ent.pkey, func(conn sqlx.SqlConn, v any) error {
+			c.err = w.cc.QueryRow(v, ent.pkey, func(conn sqlx.SqlConn, v any) error {
 				_, err := w.query(nil, st, c, qPrimary, v)
 				return err
 			})
 			break
 		}
 		// the closures use the context go-zero hands them: that is what a driver would see
-		c.err = w.cc.QueryRowCtx(ctx, &v, ent.pkey, func(ctx context.Context, conn sqlx.SqlConn, v any) error {
+		c.err = w.cc.QueryRowCtx(ctx, v, ent.pkey, func(ctx context.Context, conn sqlx.SqlConn, v any) error {
 			_, err := w.query(ctx, st, c, qPrimary, v)
 			return err
 		})
 	case rIndex:
 		if ctx == nil {
-			c.err = w.cc.QueryRowIndex(&v, ent.ikey, keyer, func(conn sqlx.SqlConn, v any) (any, error) {
+			c.err = w.cc.QueryRowIndex(v, ent.ikey, keyer, func(conn sqlx.SqlConn, v any) (any, error) {
 				return w.query(nil, st, c, qIndex, v)
 			}, func(conn sqlx.SqlConn, v, primary any) error {
 				checkPrimary(primary)
@@ -592,7 +610,7 @@ func (w *world) doRead(st *step, c *call) {
 			})
 			break
 		}
-		c.err = w.cc.QueryRowIndexCtx(ctx, &v, ent.ikey, keyer, func(ctx context.Context, conn sqlx.SqlConn, v any) (any, error) {
+		c.err = w.cc.QueryRowIndexCtx(ctx, v, ent.ikey, keyer, func(ctx context.Context, conn sqlx.SqlConn, v any) (any, error) {
 			return w.query(ctx, st, c, qIndex, v)
 		}, func(ctx context.Context, conn sqlx.SqlConn, v, primary any) error {
 			checkPrimary(primary)
@@ -602,21 +620,21 @@ func (w *world) doRead(st *step, c *call) {
 	case rGet:
 		switch direct := w.cache != nil && st.direct; {
 		case direct && ctx == nil:
-			c.err = w.cache.Get(ent.pkey, &v)
+			c.err = w.cache.Get(ent.pkey, v)
 		case direct:
-			c.err = w.cache.GetCtx(ctx, ent.pkey, &v)
+			c.err = w.cache.GetCtx(ctx, ent.pkey, v)
 		case ctx == nil:
-			c.err = w.cc.GetCache(ent.pkey, &v)
+			c.err = w.cc.GetCache(ent.pkey, v)
 		default:
-			c.err = w.cc.GetCacheCtx(ctx, ent.pkey, &v)
+			c.err = w.cc.GetCacheCtx(ctx, ent.pkey, v)
 		}
 	}
-	c.cx.close()
 	w.classify(ent, c, v)
+	c.cx.close()
 }
 
-func (w *world) classify(ent *entity, c *call, v row) {
-	c.got = v
+func (w *world) classify(ent *entity, c *call, v *row) {
+	c.got = cloneRow(*v)
 	switch {
 	case c.err == nil:
 		c.out = oRow
@@ -1047,6 +1065,10 @@ func newWorld(r *simrt.Run, tier string) *world {
 	if w.idents {
 		r.Probe("error-identities-member")
 	}
+	w.touchy = t.Intn(5) >= 3 && !noTouch
+	if w.touchy {
+		r.Probe("touchy-member")
+	}
 	w.variant = t.Intn(4)
 	w.cluster = w.variant == 3
 	ne := len(expiries)
@@ -1466,6 +1488,9 @@ func (w *world) genFault(st *step) {
 
 func (st *step) String() string {
 	s := fmt.Sprintf("%s row%d", stepKindNames[st.kind], st.ent.idx)
+	if st.follow {
+		s = "next-" + s
+	}
 	for _, e := range st.more {
 		s += fmt.Sprintf("+row%d", e.idx)
 	}
@@ -1493,6 +1518,7 @@ func (st *step) String() string {
 			if i > 0 {
 				s += " "
 			}
+			s += c.touchPrefix()
 			if st.monc && c.kind != rGet {
 				s += "FindOne"
 			} else {
@@ -1501,6 +1527,7 @@ func (st *step) String() string {
 			if c.cx.mode != cNone {
 				s += "(" + c.cx.String() + ")"
 			}
+			s += c.touchSuffix()
 		}
 		s += "]"
 		if st.errLeft[0]+st.errLeft[1] > 0 {
@@ -1779,21 +1806,15 @@ func (w *world) launch(st *step) []*simrt.Task {
 	ent := st.ent
 	if st.kind == kRead {
 		for i, c := range st.readers {
+			if c.chained {
+				continue // run by the task of the call it follows
+			}
 			c := c
-			c.id = w.nCall
-			w.nCall++
 			tk := w.r.Go(fmt.Sprintf("reader%d-row%d", i, ent.idx), func() {
 				if c.think > 0 {
 					w.r.Sleep(c.think)
 				}
-				c.inv, c.tinv = w.tick(), time.Now()
-				w.r.Ev("invoke", int64(c.id), int64(c.kind), int64(ent.idx))
-				w.doRead(st, c)
-				c.ret, c.tret, c.returned = w.tick(), time.Now(), true
-				w.r.Ev("return", int64(c.id), int64(c.out), int64(c.got.Ver))
-				if debugOps {
-					w.ops = append(w.ops, fmt.Sprintf("    return call %d err=%v seq=%d tape=%d t=%v", c.id, c.err, w.r.Seq(), w.t.Pos(), w.r.Elapsed()))
-				}
+				w.readChain(st, c)
 			})
 			w.htask[tk.ID] = true
 			ts = append(ts, tk)
@@ -1829,7 +1850,14 @@ func (w *world) runSteps(sts ...*step) {
 		return
 	}
 	w.overdue()
+	if w.touchy && !w.audit {
+		sts = w.touch(sts)
+	}
 	for _, st := range sts {
+		for _, c := range st.readers {
+			c.id = w.nCall
+			w.nCall++
+		}
 		w.prepare(st)
 	}
 	var ts []*simrt.Task
@@ -1844,6 +1872,7 @@ func (w *world) runSteps(sts ...*step) {
 	for _, st := range sts {
 		w.finishStep(st)
 	}
+	w.checkObjects()
 	w.invariants()
 }
 
@@ -1889,7 +1918,7 @@ func body(r *simrt.Run, tier string) {
 		}
 	}
 	r.Sample(map[string]any{"construction": construction, "options": w.optDesc, "nodes_and_keys": w.placementDesc(),
-		"fault_injecting": w.faulty, "contexts_may_end": w.ctxy, "expiry": w.e.String(), "not_found_expiry": w.nfe.String(), "rows_version_history": strings.TrimSpace(ents),
+		"fault_injecting": w.faulty, "contexts_may_end": w.ctxy, "callers_touch_their_destination_objects": w.touchy, "expiry": w.e.String(), "not_found_expiry": w.nfe.String(), "rows_version_history": strings.TrimSpace(ents),
 		"history": w.ops, "store_faults_fired": fired})
 }
 
